@@ -175,3 +175,41 @@ func init() {
 		accessorRuns(r, rng, 40)
 	})
 }
+
+// Round-5 reviewers' changes that another property's scenarios catch (oracle-only reuse; the model
+// answers belong to the other property):
+//   - C02 (timing = emulation) depends on the timing register store (C07's timing scenarios);
+//   - C09 (every work-group mapped exactly once) depends on GridBuilder.Skip/NextWG under a filter and
+//     on the partition algorithm (C08's enumeration and partition scenarios);
+//   - C10 (no frame lost or handed out twice) depends on what the driver does with the old frame of a
+//     migrated page (C19's driver scenarios);
+//   - C12 (a command sees its predecessors' effects) depends on the flush decision for copies that
+//     overlap a dirty buffer (C11's overlap witnesses and hypotheses audit).
+func init() {
+	oracleOnly := func(f func(r *Run, rng *Rng)) func(r *Run, rng *Rng, _ string) {
+		return func(r *Run, rng *Rng, _ string) {
+			r.OracleOnly = true
+			defer func() { r.OracleOnly = false }()
+			f(r, rng)
+		}
+	}
+	register("C02", oracleOnly(func(r *Run, rng *Rng) {
+		for i := 0; i < 120; i++ {
+			runC07Scenario(r, c07GenTim(rng, rng.Range(10, 120), true), "valid")
+		}
+	}))
+	register("C09", oracleOnly(func(r *Run, rng *Rng) {
+		for i := 0; i < 60; i++ {
+			g := c08Geo{rng.Range(1, 40), rng.Range(1, 12), rng.Range(1, 3)}
+			w := c08Geo{rng.Range(1, 8), rng.Range(1, 4), rng.Range(1, 2)}
+			cus := []int{rng.Range(1, 4), rng.Range(1, 4)}
+			if rng.Bool() {
+				cus = append(cus, rng.Range(1, 4))
+			}
+			c08Multi(r, g, w, cus)
+			c08Part(r, g, w, cus, rng.Intn(len(cus)), rng.Range(1, 4), "")
+		}
+	}))
+	register("C10", oracleOnly(func(r *Run, rng *Rng) { runC19Drv(r, rng, "") }))
+	register("C12", oracleOnly(func(r *Run, rng *Rng) { runC11Hyp(r, rng, "") }))
+}
